@@ -5,6 +5,7 @@ SignatureManager.add_signature / get_symbols on generated declaration sequences 
 emitted atoms of real compilations vs the reported arities in both printing modes.
 -/
 import Cnl2aspModel.Compiler.Signatures
+import Cnl2aspModel.Compiler.SignaturesFn
 
 namespace Cnl2aspModel.Signatures
 
@@ -47,6 +48,18 @@ theorem C13_stable_arity_unmentioned (nameEq : String → String → Bool) (e s 
     intro a ha
     simp [h a ha]
   simp [this]
+
+/-- Function-term mode: the nested arity `get_symbols` reports (the number of distinct own attribute names and inherited
+concepts) IS the number of top-level arguments the function-mode printer of C14 (`PrintAtom.group`) produces for an instance
+of the signature — for every signature whose own attribute names are pairwise distinct and differ from the names of the
+concepts it inherits from (decidable hypothesis `ownOkB`, evaluated by the driver on every table of every run; a signature
+outside it is the shape of the repaired defect F22). -/
+theorem C13_fn_arity (s : Sig) (h : ownOkB s.name (instanceAttrs s) = true) : printedFnArity seq s = fnArity s :=
+  fn_arity_printed s h
+
+/-- non-vacuity: a concept with one own key and two attributes inherited from the same concept has nested arity 2 -/
+example : ownOkB "seat" (instanceAttrs ⟨"seat", [⟨"id", ["seat"]⟩], [⟨"id", ["room"]⟩, ⟨"floor", ["room"]⟩]⟩) = true ∧
+    fnArity ⟨"seat", [⟨"id", ["seat"]⟩], [⟨"id", ["room"]⟩, ⟨"floor", ["room"]⟩]⟩ = 2 := by decide
 
 /-- non-vacuity: a forward reference is expanded in place (`seat` mentions `room` before `room` is declared
 with two keys): the arity of `seat` changes from 2 to 3 — the reason why the property is checked on the
